@@ -44,3 +44,53 @@ package size
 
 //@ func appendSeparator
 //@   inline
+
+// ---- C08: unit multipliers, written from the statement -----------------------------------------------------------------
+//@ pure func unitMult(u bytes) uint64 = ite(u == "B", 1, ite(u == "kB", 1000, ite(u == "MB", 1000000, ite(u == "GB", 1000000000, ite(u == "TB", 1000000000000,
+//@     ite(u == "PB", 1000000000000000, ite(u == "EB", 1000000000000000000, ite(u == "KiB", 1024, ite(u == "MiB", 1048576, ite(u == "GiB", 1073741824,
+//@     ite(u == "TiB", 1099511627776, ite(u == "PiB", 1125899906842624, ite(u == "EiB", 1152921504606846976, 0)))))))))))))
+//@ pure func unitKnown(u bytes) bool = unitMult(u) != 0
+//@ pure func unitTooLarge(u bytes) bool = u == "ZB" || u == "YB" || u == "ZiB" || u == "YiB"
+//@ pure func unitZeroOK(u bytes) bool = u == "" || unitKnown(u) || unitTooLarge(u)
+//@ pure func multOf(u bytes) uint64 = ite(u == "", 1, unitMult(u))
+
+// number x unit: exact or refused
+//@ func newSize
+//@   mode bv
+//@   ensures [C08.zero] numIsZero(value) ==> (r1 == nil <==> unitZeroOK(unit))
+//@   ensures [C08.exact] !numIsZero(value) ==> (r1 == nil <==> numIsNat64(value) && (unit == "" || unitKnown(unit)) && mulFits64(numToU64(value), multOf(unit)))
+//@   ensures [C08.exact] r1 == nil && !numIsZero(value) ==> uint64(r0) == numToU64(value) * multOf(unit)
+//@   ensures [C08.zero] r1 != nil || numIsZero(value) ==> r0 == 0
+//@   ensures [C08.class] numIsZero(value) && r1 != nil ==> errAs(r1, *InvalidUnitError)
+//@   ensures [C08.class] !numIsZero(value) && !numIsNat64(value) ==> errAs(r1, *InvalidValueError[N])
+//@   ensures [C08.class] !numIsZero(value) && numIsNat64(value) && unit != "" && !unitKnown(unit) ==> errAs(r1, *InvalidUnitError)
+//@   ensures [C08.class] !numIsZero(value) && numIsNat64(value) && unitKnown(unit) && !mulFits64(numToU64(value), multOf(unit)) ==> errAs(r1, *InvalidValueError[N])
+
+//@ func newInvalidUnitError
+//@   inline
+//@ func newInvalidValueError
+//@   inline
+
+//@ func New
+//@   mode bv
+//@   ensures [C08.zero] numIsZero(value) ==> (r1 == nil <==> unitZeroOK(unit))
+//@   ensures [C08.exact] !numIsZero(value) ==> (r1 == nil <==> numIsNat64(value) && (unit == "" || unitKnown(unit)) && mulFits64(numToU64(value), multOf(unit)))
+//@   ensures [C08.exact] r1 == nil && !numIsZero(value) ==> uint64(r0) == numToU64(value) * multOf(unit)
+//@   ensures [C08.zero] r1 != nil || numIsZero(value) ==> r0 == 0
+
+// Converting a size to a numeric type: success exactly when it is exactly representable, and then the same number.
+// Integers: s <= the type's maximum. Floats: the significant bits of s (between its highest and lowest set bit) fit the mantissa.
+//@ func Bytes
+//@   mode bv
+//@   ensures [C08.bytes] !typeIsFloat(value) ==> (ok <==> uint64(s) <= typeMaxU64(value))
+//@   ensures [C08.bytes] typeIsFloat(value) ==> (ok <==> bitLen(uint64(s)) - trailingZeros(uint64(s)) <= mantBits(value) || uint64(s) == 0)
+//@   ensures [C08.bytes] ok ==> numIsNat64(value) && numToU64(value) == uint64(s)
+//@   ensures [C08.bytes] !ok ==> numIsZero(value)
+
+type verifDerived int16
+type verifDerivedF float32
+
+var _ = []any{New[int], New[int8], New[int16], New[int32], New[int64], New[uint], New[uint8], New[uint16], New[uint32], New[uint64], New[float32], New[float64],
+	New[verifDerived], New[verifDerivedF],
+	Bytes[int], Bytes[int8], Bytes[int16], Bytes[int32], Bytes[int64], Bytes[uint], Bytes[uint8], Bytes[uint16], Bytes[uint32], Bytes[uint64], Bytes[float32], Bytes[float64],
+	Bytes[verifDerived], Bytes[verifDerivedF]}
